@@ -156,8 +156,9 @@ type tgRun struct {
 }
 
 type attemptRun struct {
-	n   int
-	att Attempt
+	n    int
+	att  Attempt
+	conn *grpc.ClientConn // part real: the connection the real connection.Manager handed out for this attempt
 }
 
 type world struct {
@@ -169,7 +170,8 @@ type world struct {
 	cost       map[int64]time.Duration
 	refs       [nAddrs]int
 	harnessErr string
-	ov         *overlap // non-nil in the overlap part only (holds, aims, call identities); see overlap_run.go
+	ov         *overlap   // non-nil in the overlap part only (holds, aims, call identities); see overlap_run.go
+	real       *realWorld // non-nil in the real part only (real connection.Manager, scripted dial functions); see real_run.go
 }
 
 func (w *world) rec(tgt, kind string, n int, id int64, err error, info string) {
@@ -321,7 +323,14 @@ func (w *world) subscribeClient(ctx context.Context, conn *grpc.ClientConn) (gpb
 		w.flagHarness("stream opened without an attributable dial (metadata target %q)", name)
 		return nil, errOpen
 	}
-	if conn != conns[tg.spec.Addr] {
+	if w.real != nil {
+		w.mu.Lock()
+		handed := ar.conn
+		w.mu.Unlock()
+		if conn == nil || conn != handed {
+			w.flagHarness("target %s: stream opened on a connection that is not the one Connection returned for this attempt", name)
+		}
+	} else if conn != conns[tg.spec.Addr] {
 		w.flagHarness("target %s: stream opened on a connection that is not the one handed out for its address", name)
 	}
 	if err := ctx.Err(); err != nil {
@@ -521,6 +530,9 @@ func runScenarioTrace(t *testing.T, sc *Scenario) (st *stats, trace []Ev, err er
 	w := &world{sc: sc, tg: map[string]*tgRun{}, cost: map[int64]time.Duration{}}
 	restore := manager.VerifSetSubscribeClient(w.subscribeClient)
 	defer restore()
+	if sc.Real {
+		return runReal(t, w)
+	}
 
 	var runErr error
 	defer func() {
